@@ -794,6 +794,9 @@ def _run_learners(case, w, ref, folder, process, V, probes, tape):
         # per key: generations in order; across keys and inside a generation: any interleaving, point by point
         state = {k: 0 for k in ld}  # current generation per key
         npoints = 0
+        # every point of every learner is asked for once; a scheduler that needs more than twice that is not terminating
+        # (a constant bound of 2000 was a false alarm of the thorough tier: 648 keys x 4 learners of one point or more each)
+        budget = 100 + 2 * sum(len(getattr(lp.learner, "sequence", ())) or 1 for gens in ld.values() for g in gens for lp in g)
         while True:
             ready = []
             for k, gens in ld.items():
@@ -820,7 +823,7 @@ def _run_learners(case, w, ref, folder, process, V, probes, tape):
                 if learner is not lp.learner:
                     lp.learner.tell(pt, y)
                 npoints += 1
-            if npoints > 2000:
+            if npoints > max(2000, budget):
                 raise RuntimeError("learner scheduler did not terminate")
         probes["learner_points"] = probes.get("learner_points", 0) + npoints
         probes["learner_keys"] = probes.get("learner_keys", 0) + len(ld)
